@@ -513,7 +513,9 @@ func (c *Client) reconnect(ctx context.Context) error {
 func (c *Client) doRountrip(ctx context.Context, msg *kmip.RequestMessage) (*kmip.ResponseMessage, error) {
 	c.lock.Lock()
 	defer c.lock.Unlock()
-	if c.conn == nil {
+	if c.conn == nil || c.conn.failed() {
+		// Never reuse a connection torn down by an I/O failure (reset, broken pipe, ...):
+		// whatever the error was, the next call gets a fresh connection.
 		if err := c.reconnect(ctx); err != nil {
 			return nil, err
 		}
